@@ -334,8 +334,13 @@ def execute_common(plan: dict, judge: str) -> dict:
             stats["evaluations"] = stats.get("evaluations", 0) + 1
             stats["seam_steps"] = stats.get("seam_steps", 0) + sim.seq
             fired = len(sim.faults_fired)
+            if sim.sticky_hits:
+                stats["probe:persistent_fault_hit_again_on_retry"] = \
+                    stats.get("probe:persistent_fault_hit_again_on_retry", 0) + 1
             for f3 in sim.faults_fired:
                 lab = f"{f3['op']}:{errno.errorcode.get(f3.get('errno', 0), f3['fault'])}"
+                if f3.get("sticky"):
+                    lab += ":persistent"
                 stats["fault:" + lab] = stats.get("fault:" + lab, 0) + 1
             for lab in label:
                 if lab.startswith(("state", "benign", "layout")):
